@@ -559,6 +559,82 @@ def countexact(run, fx):
             run.held('VALIDATEFIRST', inst, fn.where(), '%d abstract executions: buffers of 0..3 units over unit classes %s' % (cases, ['%X' % u for u in reps]))
 
 
+def decodeexact(run, fx, rule='LEADREJECT'):
+    """"the same scalar sequence supplied as UTF-8, UTF-16 or UTF-32 produces identical segments": _utf_codec<8>::get and
+    _utf_codec<16>::get, interpreted from their own CFGs on the encodings of a grid of scalar values (both ends of every length class,
+    both ends of every plane group: lead-surrogate payloads with and without each high bit), return that scalar value and the length
+    of the sequence.  Bounded: the grid, not every scalar."""
+    from . import ordint as O
+    grid = [0x41, 0x7F, 0x80, 0x7FF, 0x800, 0xD7FF, 0xE000, 0xFFFD, 0xFFFF, 0x10000, 0x103FF, 0x10400, 0x1D510, 0x1FFFF, 0x20000, 0x2F800, 0x3FFFF, 0x40000,
+            0x7FFFF, 0x80000, 0xE0001, 0xFFFFF, 0x100000, 0x10FC00, 0x10FFFF]
+    for w in (8, 16):
+        fns = _uniq(fx.fns_named('graphite2::_utf_codec<%d>::get' % w))
+        inst = 'utf%d get returns the scalar value that was encoded' % w
+        if not fns:
+            run.broken(rule, inst, 'graphite2::_utf_codec<%d>::get not found' % w)
+            continue
+        fn = fns[0]
+        prob, cases = None, 0
+        try:
+            for cp in grid:
+                if w == 8:
+                    units = list(chr(cp).encode('utf-8', 'surrogatepass'))
+                else:
+                    units = [cp] if cp < 0x10000 else [0xD800 + ((cp - 0x10000) >> 10), 0xDC00 + ((cp - 0x10000) & 0x3FF)]
+                vec = O.Vec(list(units) + [0])
+                lbox = [0]
+                it = O.Interp(fx)
+                it.MAX_STEPS = 2000
+                cases += 1
+                try:
+                    r = it.call(fn, None, [O.It(vec, 0), O.LV(lbox, 0)])
+                except O.Violation as v:
+                    prob = 'U+%04X encoded as [%s]: %s (%s)' % (cp, ' '.join('%02X' % u for u in units), v.what, v.loc)
+                    break
+                if r != cp or lbox[0] != len(units):
+                    prob = 'U+%04X encoded as [%s] decodes to %s with length %r: the UTF-%d form of a text no longer gives the characters (name-table labels, segments) its UTF-32 form gives' % (
+                        cp, ' '.join(('%02X' if w == 8 else '%04X') % u for u in units), ('U+%04X' % r) if isinstance(r, int) else repr(r), lbox[0], w)
+                    break
+        except AnalysisBroken as ex:
+            run.broken(rule, inst, str(ex), fn.where())
+            continue
+        if prob:
+            run.violated(rule, inst, fn.where(), prob)
+        else:
+            run.held(rule, inst, fn.where(), '%d scalar values decoded from their encodings' % cases)
+        # the encoder (name-table labels are converted with it): put() writes exactly the standard encoding
+        pf = _uniq(fx.fns_named('graphite2::_utf_codec<%d>::put' % w))
+        inst = 'utf%d put writes the standard encoding' % w
+        if not pf:
+            run.broken(rule, inst, 'graphite2::_utf_codec<%d>::put not found' % w)
+            continue
+        prob = None
+        try:
+            for cp in grid:
+                want = list(chr(cp).encode('utf-8', 'surrogatepass')) if w == 8 else ([cp] if cp < 0x10000 else [0xD800 + ((cp - 0x10000) >> 10), 0xDC00 + ((cp - 0x10000) & 0x3FF)])
+                vec = O.Vec(['unset'] * 4)
+                lbox = [0]
+                it = O.Interp(fx)
+                it.MAX_STEPS = 2000
+                try:
+                    it.call(pf[0], None, [O.It(vec, 0), cp, O.LV(lbox, 0)])
+                except O.Violation as v:
+                    prob = 'U+%04X: %s (%s)' % (cp, v.what, v.loc)
+                    break
+                mask = 0xFF if w == 8 else 0xFFFF
+                got = [x & mask if isinstance(x, int) else x for x in vec.items[:len(want)]]
+                if got != want or lbox[0] != len(want) or any(x != 'unset' for x in vec.items[len(want):]):
+                    prob = 'U+%04X is written as %s (length %r), its UTF-%d encoding is [%s]' % (cp, vec.items, lbox[0], w, ' '.join('%X' % u for u in want))
+                    break
+        except AnalysisBroken as ex:
+            run.broken(rule, inst, str(ex), pf[0].where())
+            continue
+        if prob:
+            run.violated(rule, inst, pf[0].where(), prob)
+        else:
+            run.held(rule, inst, pf[0].where(), '%d scalar values encoded' % len(grid))
+
+
 def errset(run, fx):
     """`*pError` is the function's second result: NULL for well-formed text, the offending position otherwise.  The only code that writes
     it is count_unicode_chars; so every return of gr_count_unicode_characters for a valid encoding form hands the caller's pError to
@@ -598,6 +674,7 @@ def errset(run, fx):
 def run(run):
     fx = run.facts('Q0')
     errset(run, fx)
+    decodeexact(run, fx)
     validatefirst(run, fx)
     countexact(run, fx)
     validateback(run, fx)
